@@ -92,6 +92,18 @@ def generate(rng, tier):
         if rng.random() < 0.5: order = list(range(count))[::-1][:12] + order
         exp = " ".join(("%d:%d" % (sel[r] % w, sel[r] // w)) if r < count else "none" for r in order)
         cs.append(Case("mc.coordseq %d %d %d %d %s %s" % (count, h, seed, w, rbytes(rng, 40).hex(), ",".join(map(str, order))), "coords-any-order-one-verifier", exp + " ~0"))
+    # a verifier asked for more rounds than the card has cells panics in `MatrixCardVerifier::new` (remainder by zero — outside the
+    # property, and the model says the same); what the property does cover is the NEXT verifier on the same thread: a caller that
+    # contains the panic must find the library as it was (nothing shared may be left half-updated)
+    for _ in range(6 if tier == "quick" else 200):
+        w = rng.randint(1, 6); h = rng.randint(1, 6); K = rbytes(rng, 40)
+        cs.append(Case("mc.coords %d %d %d %d %s 0" % (w * h + rng.randint(1, 3), h, rng.getrandbits(64), w, K.hex()), "more-rounds-than-cells(panics)", "panic"))
+        for _ in range(3):
+            w2 = rng.randint(1, 6); h2 = rng.randint(1, 6); count = rng.randint(1, w2 * h2); seed = rng.choice([0, 1, rng.getrandbits(64)])
+            sel = pyref.mc_coordinates(w2, h2, count, seed)
+            order = list(range(count))
+            exp = " ".join("%d:%d" % (sel[r] % w2, sel[r] // w2) for r in order)
+            cs.append(Case("mc.coordseq %d %d %d %d %s %s" % (count, h2, seed, w2, K.hex(), ",".join(map(str, order))), "coords-after-a-contained-panic", exp + " ~0"))
     # cards whose cells hold arbitrary byte values (from_data accepts any bytes): the proof is over the entered bytes as they are
     for _ in range(40 if tier == "quick" else 600):
         d, w = rng.randint(1, 3), rng.randint(1, 8); h = rng.randint(1, 8)
